@@ -73,6 +73,8 @@ type opExec struct {
 	// for auto-assignments: may this request use a pool containing ip (judged now)?  and its own block cap
 	poolUsable   func(ip net.IP) bool
 	reqMaxBlocks int
+	// requireEmpty: any block affinity this operation gives up must belong to a block without live allocations
+	requireEmpty bool
 }
 
 func (op *opExec) describe() string { return op.desc }
@@ -267,6 +269,7 @@ func (a *actorState) exec(ctx context.Context, spec opSpec) {
 			args.MaxBlocksPerHost = 1
 		}
 		op := a.begin(opAutoAssign, fmt.Sprintf("AutoAssign(num4=%d num6=%d handle=%s use=%s ns=%v pools=%v)", num4, num6, h, use, nsLabels, requested))
+		op.requireEmpty = true // the releases AutoAssign performs itself (pool no longer selects the node, reclaim of an empty block) all require emptiness
 		op.handle, op.handles = h, []string{h}
 		op.reqMaxBlocks = args.MaxBlocksPerHost
 		op.poolUsable = func(ip net.IP) bool {
@@ -429,6 +432,7 @@ func (a *actorState) exec(ctx context.Context, spec opSpec) {
 		bl := blockCIDRs(pv)
 		c := bl[spec.b%len(bl)]
 		op := a.begin(opReleaseAffinity, fmt.Sprintf("ReleaseAffinity(%s, %s, mustBeEmpty=%v)", c.String(), a.host, spec.flag))
+		op.requireEmpty = spec.flag
 		err := a.client.ReleaseAffinity(ctx, c, a.host, spec.flag)
 		a.end(op, errStr(err))
 	case opReleaseHostAffinities:
@@ -437,6 +441,7 @@ func (a *actorState) exec(ctx context.Context, spec opSpec) {
 			host = w.hosts[spec.a%len(w.hosts)] // a controller cleaning up some (possibly other) node
 		}
 		op := a.begin(opReleaseHostAffinities, fmt.Sprintf("ReleaseHostAffinities(%s, mustBeEmpty=%v)", host, spec.flag))
+		op.requireEmpty = spec.flag
 		err := a.client.ReleaseHostAffinities(ctx, ipam.AffinityConfig{AffinityType: ipam.AffinityTypeHost, Host: host}, spec.flag)
 		a.end(op, errStr(err))
 	case opEnsureBlock:
